@@ -197,7 +197,7 @@ def renumber_after_mutation(ctx, rule, floor=2):
         muts = []
         for bi, si, st in b.iter_stmts():
             if st["k"] == "assign" and not b.blocks[bi]["cleanup"] and st["place"]["p"]:
-                pth = U.field_path(sy.place(st["place"]))
+                pth = U.field_path(sy.dest(st["place"]))
                 if pth and pth[0] == "arg" and pth[1] == 1 and pth[2] == ["words"]:
                     muts.append((bi, "assign"))
         for (bi, t, rk, m) in U.receiver_events(ctx, b):
@@ -214,7 +214,7 @@ def renumber_after_mutation(ctx, rule, floor=2):
         ren = []
         for bi, si, st in b.iter_stmts():
             if st["k"] == "assign" and not b.blocks[bi]["cleanup"] and st["place"]["p"]:
-                pl = sy.place(st["place"])
+                pl = sy.dest(st["place"])
                 if pl[0] == "field" and pl[2] == "offset":
                     src = sy.rvalue(st["rv"])
                     if any(isinstance(x, tuple) and x and x[0] == "call" and x[1].endswith("Iterator::enumerate")
@@ -319,7 +319,7 @@ def normalize_assigns_together(ctx, rule):
     for bi, si, st in b.iter_stmts():
         if st["k"] != "assign" or b.blocks[bi]["cleanup"] or not st["place"]["p"]:
             continue
-        pl = sy.place(st["place"])
+        pl = sy.dest(st["place"])
         pth = U.field_path(pl)
         if pth and pth[0] == "arg" and pth[1] == 1 and pth[2] in (["source"], ["chars"]):
             asg[pth[2][0]].append((bi, st, sy.rvalue(st["rv"])))
@@ -464,7 +464,7 @@ def word_shape_rules(ctx, rule):
         asg = {}
         for bi, si, st in b.iter_stmts():
             if st["k"] == "assign" and st["place"]["p"] and not b.blocks[bi]["cleanup"]:
-                pl = sy.place(st["place"])
+                pl = sy.dest(st["place"])
                 pth = U.field_path(pl)
                 if pth and pth[0] == "arg" and pth[1] == 1:
                     v_ = sy.rvalue(st["rv"])
@@ -766,8 +766,8 @@ def per_word_stages_unconditional(ctx, rule, stages=("strip", "set_stem", "set_p
             sy = ctx.sym(x)
             cfg = ctx.cfg(x)
             asg = [bi for bi, si, st in x.iter_stmts() if st["k"] == "assign" and st["place"]["p"] and not x.blocks[bi]["cleanup"]
-                   and (U.field_path(sy.place(st["place"])) or (0, 0, [None]))[2][-1:] == ["stem"]]
-            asg += [bi for bi, t in x.calls() if t["dest"]["p"] and (U.field_path(sy.place(t["dest"])) or (0, 0, [None]))[2][-1:] == ["stem"]]
+                   and (U.field_path(sy.dest(st["place"])) or (0, 0, [None]))[2][-1:] == ["stem"]]
+            asg += [bi for bi, t in x.calls() if t["dest"]["p"] and (U.field_path(sy.dest(t["dest"])) or (0, 0, [None]))[2][-1:] == ["stem"]]
             key = "stem-assigned"
             if asg and cfg.every_path_passes(0, asg):
                 ctx.ok(rule, key, x.where(), "WordShape::set_stem assigns the stem on every path")
